@@ -367,10 +367,14 @@ def r4_copy_coverage(P, rep, ctx):
             lf = F(ctx, lister)
             a, sh = lister.params[0], lister.params[1]
             shallow_t = lf.tests(sh)
+            # shallow: the immediate items -- returned as a list, or put into the returned accumulator
             imm = [i for i, v in lf.returns() if v is not None and lf.x(v) in (f"list({a}.items())", f"[*{a}.items()]")]
+            imm += lf.calls(f"__r.extend({a}.items())", f"__r.extend(list({a}.items()))")
             deep = lf.calls(f"{a}.visititems(___)")
-            full = [i for i, v in lf.returns() if i not in imm]
-            lister_ok = bool(shallow_t) and bool(imm) and bool(deep) and bool(full) and lf.all_hit_before(imm, edges=shallow_t) and lf.all_hit_before(full, nodes=deep) and all(lf.hit_before(lf.g.exit, nodes=imm, src_edge=e) for e in shallow_t)
+            nsh = lf.neg(shallow_t)
+            lister_ok = (bool(shallow_t) and bool(imm) and bool(deep) and lf.all_hit_before(imm, edges=shallow_t) and lf.all_hit_before(deep, edges=nsh)
+                         and all(lf.hit_before(lf.g.exit, nodes=imm, src_edge=e) for e in shallow_t) and all(lf.hit_before(lf.g.exit, nodes=deep, src_edge=e) for e in nsh)
+                         and all(v is not None for i, v in lf.returns()))
             for _, c_, b_ in lf.call_sites(f"{a}.visititems(__cb)"):
                 ps, body = callback_form(lf, c_.args[0])
                 lister_ok = lister_ok and ps is not None and len(ps) == 2 and isinstance(body, ast.AST) and M.match(f"__r.append(({ps[0]}, {ps[1]}))", body) is not None
